@@ -179,6 +179,10 @@ def include_catalogue():
     yield dict(kind="include", cls="include", main="main.asm", files={"main.asm": [" INCLUDE a.asm\n"], "a.asm": ["LA FOO 1\n"]})
     yield dict(kind="include", cls="include", main="main.asm", files={"main.asm": [" INCLUDE a.asm\n"], "a.asm": []})
     yield dict(kind="include", cls="include", main="main.asm", files={"main.asm": [" INCLUDE sub/a.asm\n"], "sub/a.asm": [" NOP \n"]})
+    # the operand names something that exists but is not a readable regular file, or cannot be a file name at all
+    for operand in (".", "..", "/", "sub", "sub/", "sub/a.asm/x.asm", "x" * 300, "sub/" * 200 + "a.asm", "\x01", "a.asm\x00b"):
+        yield dict(kind="include", cls="include", main="main.asm",
+                   files={"main.asm": [" NOP \n", " INCLUDE {}\n".format(operand)], "sub/a.asm": [" NOP \n"]})
     yield dict(kind="include", cls="include", main="main.asm", files={"main.asm": [" INCLUDE ./a.asm\n"], "a.asm": [" INCLUDE ./a.asm\n"]})
     yield dict(kind="include", cls="include", main="main.asm",
                files={"main.asm": [" INCLUDE a.asm\n"], "a.asm": [" INCLUDE sub/../b.asm\n"], "b.asm": [" INCLUDE ./a.asm\n"], "sub/x.asm": []})
